@@ -1,3 +1,370 @@
-/-! # C14 — (stub: property theorems go here; see docs/BUILDING.md) -/
+import PtVerif.Proofs.ActivationTable
+import PtVerif.Proofs.ActivationData
+import PtVerif.Proofs.ActivationUnique
+/-!
+# C14 — activation equals the solution of the documented capture/decay chains
+
+Model: `PtVerif.Model.Activation` (`activityRow`, `activity`, `calcActivation`), the code of
+`periodictable/activation.py` **with `fixes/activation-1-burnup-expm1.patch` applied**, tied to the
+source on every run by `harness/ptv/props/C14.py` (translator for `activation.dat` and the
+constants; differential correspondence of the compiled model with `activity()` /
+`Sample.calculate_activation`; 60-digit chain-ODE oracle on the real code).
+
+All statements are about the real-number reading (`ℝ`, `Real.exp`) of the same polymorphic terms
+the driver runs at `Float`.
+
+Clauses of the property and where they are:
+
+* "each product's activity is the decay rate given by the exact solution of its reaction chain":
+  `act_solves` + `act_is_chain_solution`, `b_solves` + `b_is_chain_solution`,
+  `twoN_solves` + `twoN_is_chain_solution` (closed forms solve the ODE systems with the stated
+  initial values; `activityRow` returns `λ·N(T)` of that solution); `act_solution_unique`,
+  `b_solution_unique`, `twoN_solution_unique` (they are *the* solutions)
+* "never negative, never fail to compute for physical inputs": `nonneg_act`, `nonneg_b`,
+  `nonneg_2n`, and over the regenerated table `table_act_never_fails`, `table_b_never_fails`,
+  `table_2n_never_fails_off_coincidence`;
+  for `'2n'` rows only off the set where two of the three rates coincide
+  (`never_fails_full` / `never_fails_partial` / `twoN_fails_at_coinciding_rates`)
+* "proportional to sample mass": `linear_in_mass`, `linear_in_mass_list`
+* "do not decrease with exposure by more than the depletion of the target":
+  `exposure_monotone_mod_depletion` (single capture), `_b`, `_2n`
+* "fall by exactly 2^(-t/T½) over a rest time t": `rest_decay`
+* "fast reactions omitted when the fast ratio is 0": `fast_omitted`, `fast_omitted_iff`,
+  `result_rows_are_the_kept_rows`
+* "epithermal capture omitted when the cadmium ratio is below 1": `epithermal_omitted`,
+  `epithermal_factor`
+* "a natural element contributes the abundance-weighted sum of its isotopes":
+  `sample_is_sum_over_isotope_calls`, `sample_table_is_sum_over_isotope_calls`,
+  `natural_is_abundance_weighted_sum`
+* "with the tabulated cross sections and half-lives": data facts `table_rows_well_formed`,
+  `ln2_is_log_two`, `barn_literal`, `uCi_literal_is_avogadro_per_microcurie` over
+  `Generated.ActivationDat` (kernel-checked against the current files on every run)
+
+**Partial** (not a theorem here): "to within double-precision rounding of that solution".
+`Float` is opaque to the kernel and no floating-point error analysis is attempted; the rounding of
+the real code is confronted, on every run, with the chain ODE solved in 60-digit `Decimal`
+(tolerance 1e-9).  That comparison holds for every single-capture row on the whole range after the
+repair, and fails for the `'2n'` rows (catastrophic cancellation, finding D12b) and for `'b'` rows
+at very small `λ·T` (finding D12c).
+-/
 namespace PtVerif.C14
+open PtModel.Activation
+
+/-! ## the three chains: closed forms solve the ODE systems -/
+
+/-- single capture with burn-up of target (`a`) and product (`c = λ + b`):
+    `N_t' = -a N_t`, `N_p' = a N_t - c N_p`, `N_t(0) = N0`, `N_p(0) = 0` — for every `a`, `c`
+    (also `c = a`) -/
+theorem act_solves (N0 a c t : ℝ) :
+    HasDerivAt (actNt N0 a) (-a * actNt N0 a t) t ∧
+    HasDerivAt (actNp N0 a c) (a * actNt N0 a t - c * actNp N0 a c t) t ∧
+    actNt N0 a 0 = N0 ∧ actNp N0 a c 0 = 0 :=
+  ⟨actNt_deriv N0 a t, actNp_deriv N0 a c t, actNt_zero N0 a, actNp_zero N0 a c⟩
+
+/-- `'b'`: parent made at the constant rate `R`, `P' = R - λp P`, `D' = λp P - λ D`, `P(0) = D(0) = 0` -/
+theorem b_solves (R lp lam t : ℝ) (hlp : lp ≠ 0) (hlam : lam ≠ 0) (hne : lp - lam ≠ 0) :
+    HasDerivAt (bP R lp) (R - lp * bP R lp t) t ∧
+    HasDerivAt (bD R lp lam) (lp * bP R lp t - lam * bD R lp lam t) t ∧
+    bP R lp 0 = 0 ∧ bD R lp lam 0 = 0 :=
+  ⟨bP_deriv R lp t hlp, bD_deriv R lp lam t hlp hlam hne, bP_zero R lp, bD_zero R lp lam hne⟩
+
+example : (2:ℝ) ≠ 0 ∧ (1:ℝ) ≠ 0 ∧ (2:ℝ) - 1 ≠ 0 := by norm_num
+
+/-- `'2n'`: `x = l2·N₁`, `x' = -l2 x`, `N₂' = x - pa N₂`, `N₃' = cap N₂ - p2 N₃`,
+    `x(0) = R`, `N₂(0) = N₃(0) = 0` (three-stage Bateman chain, distinct rates) -/
+theorem twoN_solves (R cap l2 pa p2 t : ℝ) (h12 : pa - l2 ≠ 0) (h13 : p2 - l2 ≠ 0) (h23 : p2 - pa ≠ 0) :
+    HasDerivAt (nX R l2) (-l2 * nX R l2 t) t ∧
+    HasDerivAt (nN2 R l2 pa) (nX R l2 t - pa * nN2 R l2 pa t) t ∧
+    HasDerivAt (nN3 R cap l2 pa p2) (cap * nN2 R l2 pa t - p2 * nN3 R cap l2 pa p2 t) t ∧
+    nX R l2 0 = R ∧ nN2 R l2 pa 0 = 0 ∧ nN3 R cap l2 pa p2 0 = 0 :=
+  ⟨nX_deriv R l2 t, nN2_deriv R l2 pa t h12, nN3_deriv R cap l2 pa p2 t h12 h13 h23,
+   nX_zero R l2, nN2_zero R l2 pa, nN3_zero R cap l2 pa p2 h12 h13 h23⟩
+
+example : (2:ℝ) - 1 ≠ 0 ∧ (3:ℝ) - 1 ≠ 0 ∧ (3:ℝ) - 2 ≠ 0 := by norm_num
+
+/-! ### … and they are *the* solutions -/
+
+/-- single capture: whatever differentiable `(N_t, N_p)` satisfies the system and the initial
+    values is the closed form, at every time -/
+theorem act_solution_unique (N0 a c : ℝ) (Nt Np : ℝ → ℝ)
+    (hNt : ∀ t, HasDerivAt Nt (-a * Nt t) t) (hNp : ∀ t, HasDerivAt Np (a * Nt t - c * Np t) t)
+    (h0t : Nt 0 = N0) (h0p : Np 0 = 0) :
+    (∀ t, Nt t = actNt N0 a t) ∧ (∀ t, Np t = actNp N0 a c t) :=
+  PtModel.Activation.act_solution_unique N0 a c Nt Np hNt hNp h0t h0p
+
+theorem b_solution_unique (R lp lam : ℝ) (hlp : lp ≠ 0) (hlam : lam ≠ 0) (hne : lp - lam ≠ 0)
+    (P D : ℝ → ℝ) (hP : ∀ t, HasDerivAt P (R - lp * P t) t) (hD : ∀ t, HasDerivAt D (lp * P t - lam * D t) t)
+    (h0P : P 0 = 0) (h0D : D 0 = 0) :
+    (∀ t, P t = bP R lp t) ∧ (∀ t, D t = bD R lp lam t) :=
+  PtModel.Activation.b_solution_unique R lp lam hlp hlam hne P D hP hD h0P h0D
+
+theorem twoN_solution_unique (R cap l2 pa p2 : ℝ) (h12 : pa - l2 ≠ 0) (h13 : p2 - l2 ≠ 0) (h23 : p2 - pa ≠ 0)
+    (x N2 N3 : ℝ → ℝ) (hx : ∀ t, HasDerivAt x (-l2 * x t) t) (hN2 : ∀ t, HasDerivAt N2 (x t - pa * N2 t) t)
+    (hN3 : ∀ t, HasDerivAt N3 (cap * N2 t - p2 * N3 t) t) (h0x : x 0 = R) (h02 : N2 0 = 0) (h03 : N3 0 = 0) :
+    (∀ t, x t = nX R l2 t) ∧ (∀ t, N2 t = nN2 R l2 pa t) ∧ (∀ t, N3 t = nN3 R cap l2 pa p2 t) :=
+  PtModel.Activation.twoN_solution_unique R cap l2 pa p2 h12 h13 h23 x N2 N3 hx hN2 hN3 h0x h02 h03
+
+/-! ## `activity()` returns `λ·N(T)` of those solutions; never negative; never fails -/
+
+/-- single capture: for **every** physical input the result is `λ·N_p(T)` of the chain with
+    `a = flux·σ·3600·10⁻²⁴`, `c = λ + fluence·σ'·3600·10⁻²⁴`, `N0 = mass/A·1.6278·10¹⁹/3600`,
+    it is ≥ 0, and neither exception site is reached -/
+theorem nonneg_act {c : Consts ℝ} {r : Row ℝ} {mass : ℝ} {env : Env ℝ} {T : ℝ}
+    (h : Physical c r mass env T) (hr : r.reaction = .act)
+    (hin : ¬ (r.fast = true ∧ env.fastRatio = 0)) :
+    activityRow c r mass env T =
+      .ok (some (rateLam c r * actNp (atoms0 c r mass) (rateA env r) (rateLam c r + rateB env r) T))
+    ∧ 0 ≤ rateLam c r * actNp (atoms0 c r mass) (rateA env r) (rateLam c r + rateB env r) T :=
+  activityRow_act_ok h hr hin
+
+/-- the value clause alone, without sign conditions on the inputs -/
+theorem act_is_chain_solution (c : Consts ℝ) (r : Row ℝ) (mass : ℝ) (env : Env ℝ) (T : ℝ)
+    (hr : r.reaction = .act) (hin : ¬ (r.fast = true ∧ env.fastRatio = 0)) (hth : r.thalf ≠ 0) :
+    activityRow c r mass env T =
+      if rateLam c r * actNp (atoms0 c r mass) (rateA env r) (rateLam c r + rateB env r) T < 0
+      then .error .runtime
+      else .ok (some (rateLam c r * actNp (atoms0 c r mass) (rateA env r) (rateLam c r + rateB env r) T)) :=
+  activityRow_act c r mass env T hr hin hth
+
+/-- `'b'` rows: `λ·D(T)` of the parent/daughter chain fed at the rate `root` -/
+theorem b_is_chain_solution (c : Consts ℝ) (r : Row ℝ) (mass : ℝ) (env : Env ℝ) (T : ℝ)
+    (hr : r.reaction = .b) (hin : ¬ (r.fast = true ∧ env.fastRatio = 0)) (hth : r.thalf ≠ 0)
+    (hthp : r.thalfParent ≠ 0) (hlam : rateLam c r ≠ 0) (hne : ratePlam c r - rateLam c r ≠ 0) :
+    activityRow c r mass env T =
+      .ok (some (rateLam c r * bD (rateA env r * atoms0 c r mass) (ratePlam c r) (rateLam c r) T)) :=
+  activityRow_b c r mass env T hr hin hth hthp hlam hne
+
+/-- `'b'`: never negative -/
+theorem nonneg_b (R lp lam T : ℝ) (hR : 0 ≤ R) (hlp : 0 < lp) (hlam : 0 < lam)
+    (hne : lp - lam ≠ 0) (hT : 0 ≤ T) : 0 ≤ lam * bD R lp lam T :=
+  bActivity_nonneg R lp lam T hR hlp hlam hne hT
+
+example : (0:ℝ) ≤ 5 ∧ (0:ℝ) < 2 ∧ (0:ℝ) < 1 ∧ (2:ℝ) - 1 ≠ 0 ∧ (0:ℝ) ≤ 3 := by norm_num
+
+/-- `'2n'` rows: `λ·N₃(T)` of the two-capture chain, when the three rates are pairwise different -/
+theorem twoN_is_chain_solution (c : Consts ℝ) (r : Row ℝ) (mass : ℝ) (env : Env ℝ) (T : ℝ)
+    (hr : r.reaction = .twoN) (hin : ¬ (r.fast = true ∧ env.fastRatio = 0)) (hth : r.thalf ≠ 0)
+    (hthp : r.thalfParent ≠ 0)
+    (h12 : (rateB env r + ratePlam c r) - rateA env r ≠ 0) (h13 : rateLam c r - rateA env r ≠ 0)
+    (h23 : rateLam c r - (rateB env r + ratePlam c r) ≠ 0) :
+    activityRow c r mass env T =
+      .ok (some (rateLam c r * nN3 (rateA env r * atoms0 c r mass) (rateB env r) (rateA env r)
+        (rateB env r + ratePlam c r) (rateLam c r) T)) :=
+  activityRow_2n c r mass env T hr hin hth hthp h12 h13 h23
+
+/-- `'2n'`: never negative (divided-difference argument carried by the monotone quantity
+    `e^{l2 t}·N₃(t)`) -/
+theorem nonneg_2n (R cap l2 pa p2 T : ℝ) (hRc : 0 ≤ R * cap)
+    (h12 : pa - l2 ≠ 0) (h13 : p2 - l2 ≠ 0) (h23 : p2 - pa ≠ 0) (hT : 0 ≤ T) :
+    0 ≤ nN3 R cap l2 pa p2 T :=
+  nN3_nonneg R cap l2 pa p2 T hRc h12 h13 h23 hT
+
+/-! ### "never fail to compute for physical inputs" over the regenerated table -/
+
+/-- every single-capture row of activation.dat, every physical input: omitted, or a value ≥ 0 -/
+theorem table_act_never_fails (r : DRow) (hr : r ∈ PtGen.ActivationDat.table) (hact : r.reaction = .act)
+    {mass : ℝ} {env : Env ℝ} {T : ℝ} (h : PhysicalEnv mass env T) :
+    activityRow (PtGen.ActivationDat.consts) (r.toRow : Row ℝ) mass env T = .ok none ∨
+    ∃ v, activityRow (PtGen.ActivationDat.consts) (r.toRow : Row ℝ) mass env T = .ok (some v) ∧ 0 ≤ v :=
+  table_act_row r hr hact h
+
+/-- every `'b'` row of activation.dat, every physical input: omitted, or a value ≥ 0 -/
+theorem table_b_never_fails (r : DRow) (hr : r ∈ PtGen.ActivationDat.table) (hb : r.reaction = .b)
+    {mass : ℝ} {env : Env ℝ} {T : ℝ} (h : PhysicalEnv mass env T) :
+    activityRow (PtGen.ActivationDat.consts) (r.toRow : Row ℝ) mass env T = .ok none ∨
+    ∃ v, activityRow (PtGen.ActivationDat.consts) (r.toRow : Row ℝ) mass env T = .ok (some v) ∧ 0 ≤ v :=
+  table_b_row r hr hb h
+
+/-- every `'2n'` row of activation.dat, every physical input at which the three rates are pairwise
+    different: omitted, or a value ≥ 0 -/
+theorem table_2n_never_fails_off_coincidence (r : DRow) (hr : r ∈ PtGen.ActivationDat.table)
+    (h2n : r.reaction = .twoN) {mass : ℝ} {env : Env ℝ} {T : ℝ} (h : PhysicalEnv mass env T)
+    (h12 : (rateB env (r.toRow : Row ℝ) + ratePlam (PtGen.ActivationDat.consts) (r.toRow : Row ℝ))
+      - rateA env (r.toRow : Row ℝ) ≠ 0)
+    (h13 : rateLam (PtGen.ActivationDat.consts) (r.toRow : Row ℝ) - rateA env (r.toRow : Row ℝ) ≠ 0)
+    (h23 : rateLam (PtGen.ActivationDat.consts) (r.toRow : Row ℝ)
+      - (rateB env (r.toRow : Row ℝ) + ratePlam (PtGen.ActivationDat.consts) (r.toRow : Row ℝ)) ≠ 0) :
+    activityRow (PtGen.ActivationDat.consts) (r.toRow : Row ℝ) mass env T = .ok none ∨
+    ∃ v, activityRow (PtGen.ActivationDat.consts) (r.toRow : Row ℝ) mass env T = .ok (some v) ∧ 0 ≤ v :=
+  table_2n_row r hr h2n h h12 h13 h23
+
+example : (∃ r ∈ PtGen.ActivationDat.table, r.reaction = .act) ∧
+    (∃ r ∈ PtGen.ActivationDat.table, r.reaction = .b) ∧
+    (∃ r ∈ PtGen.ActivationDat.table, r.reaction = .twoN) := by decide +kernel
+
+example : PhysicalEnv (1:ℝ) ⟨1e5, 70, 50⟩ 10 := by constructor <;> norm_num
+
+/-- non-vacuity of `nonneg_act`: the first row of the table (H-2 → H-3) in the doctest's environment -/
+example : Physical (PtGen.ActivationDat.consts)
+    ((⟨1, 2, false, .act, ⟨15, -3⟩, ⟨519, -6⟩, ⟨6298, -7⟩, ⟨10815096, -2⟩, ⟨0, 0⟩, ⟨0, 0⟩, ⟨0, 0⟩⟩ : DRow).toRow : Row ℝ)
+    1 ⟨1e5, 70, 50⟩ 10 :=
+  table_row_physical _ (by decide +kernel) (by constructor <;> norm_num)
+
+/-- the full clause: no row of the table raises for any physical input -/
+def never_fails_full : Prop :=
+  ∀ r ∈ PtGen.ActivationDat.table, ∀ (mass : ℝ) (env : Env ℝ) (T : ℝ), PhysicalEnv mass env T →
+    ∃ v, activityRow (PtGen.ActivationDat.consts) (r.toRow : Row ℝ) mass env T = .ok v
+
+/-- proved part: all rows that are not `'2n'`.  Missing: `'2n'` rows at inputs where two of the
+    three rates `flux·σ`, `fluence·σ' + λ_parent`, `λ` coincide – there the three-exponential sum
+    divides by zero (`twoN_fails_at_coinciding_rates`); off that set `twoN_is_chain_solution`
+    and `nonneg_2n` apply. -/
+theorem never_fails_partial (r : DRow) (hr : r ∈ PtGen.ActivationDat.table) (hnot2n : r.reaction ≠ .twoN)
+    (mass : ℝ) (env : Env ℝ) (T : ℝ) (h : PhysicalEnv mass env T) :
+    ∃ v, activityRow (PtGen.ActivationDat.consts) (r.toRow : Row ℝ) mass env T = .ok v :=
+  table_not_2n_row_ok r hr hnot2n mass env T h
+
+/-- a row used only by the non-vacuity example below -/
+noncomputable def exampleRow2n : Row ℝ :=
+  { z := 1, a := 2, fast := false, reaction := .twoN, abundance := 1, thermalXS := 7, resonance := 0,
+    thalf := 5, thalfParent := 3, thermalXSParent := 1, resonanceParent := 0 }
+
+/-- the error branch of the `'2n'` formula: when the target burns exactly as fast as the product
+    decays the first denominator is 0 and Python raises ZeroDivisionError -/
+theorem twoN_fails_at_coinciding_rates (c : Consts ℝ) (r : Row ℝ) (mass : ℝ) (env : Env ℝ) (T : ℝ)
+    (hr : r.reaction = .twoN) (hin : ¬ (r.fast = true ∧ env.fastRatio = 0)) (hth : r.thalf ≠ 0)
+    (hthp : r.thalfParent ≠ 0) (hco : rateA env r = rateLam c r) :
+    activityRow c r mass env T = .error .zeroDivision :=
+  activityRow_2n_zeroDivision c r mass env T hr hin hth hthp hco
+
+/-- non-vacuity of `twoN_fails_at_coinciding_rates`: such an environment exists for a row with
+    positive cross section and half-life (fluence `λ/(σ·3600·10⁻²⁴)`, Cd ratio 0) -/
+example : rateA ⟨(Real.log 2 / 5) / (7 * 3.6e3 * 1e-24), 0, 0⟩ exampleRow2n = rateLam ⟨Real.log 2, 1⟩ exampleRow2n := by
+  simp only [rateA, rateLam, fluxOf, initialXS, epithermal, exampleRow2n]
+  norm_num
+  ring
+
+/-! ## proportional to the sample mass -/
+
+/-- each product's activity is proportional to the mass (omission and exceptions unchanged) -/
+theorem linear_in_mass (c : Consts ℝ) (r : Row ℝ) (mass : ℝ) (env : Env ℝ) (T k : ℝ) (hk : 0 < k) :
+    activityRow c r (k * mass) env T = scaleRow k (activityRow c r mass env T) :=
+  activityRow_linear_in_mass c r mass env T k hk
+
+/-- … and so is every entry of what `activity()` returns, at every rest time -/
+theorem linear_in_mass_list (c : Consts ℝ) (rows : List (Nat × Row ℝ)) (mass : ℝ) (env : Env ℝ)
+    (T : ℝ) (rests : List ℝ) (k : ℝ) (hk : 0 < k) (out : List (Nat × List ℝ))
+    (h : activity c rows mass env T rests = .ok out) :
+    activity c rows (k * mass) env T rests = .ok (scaleOut k out) :=
+  activity_linear_in_mass c rows mass env T rests k hk out h
+
+/-! ## exposure: no decrease beyond the depletion of the target -/
+
+/-- single capture: `A(T₂) ≥ A(T₁)·exp(-a (T₂-T₁))` for `T₁ ≤ T₂` -/
+theorem exposure_monotone_mod_depletion (N0 a c T1 T2 : ℝ) (hN : 0 ≤ a * N0) (h : T1 ≤ T2) :
+    actNp N0 a c T1 * Real.exp (-(a * (T2 - T1))) ≤ actNp N0 a c T2 :=
+  actNp_monotone_mod_depletion N0 a c T1 T2 hN h
+
+/-- `'b'` (no depletion in this chain): the daughter's activity never decreases with exposure -/
+theorem exposure_monotone_b (R lp lam : ℝ) (hR : 0 ≤ R) (hlp : 0 < lp) (hlam : 0 < lam)
+    (hne : lp - lam ≠ 0) : MonotoneOn (fun t => lam * bD R lp lam t) (Set.Ici 0) :=
+  bActivity_monotone R lp lam hR hlp hlam hne
+
+/-- `'2n'`: `N₃(T₂) ≥ N₃(T₁)·exp(-l2 (T₂-T₁))` -/
+theorem exposure_monotone_mod_depletion_2n (R cap l2 pa p2 T1 T2 : ℝ) (hRc : 0 ≤ R * cap)
+    (h12 : pa - l2 ≠ 0) (h13 : p2 - l2 ≠ 0) (h23 : p2 - pa ≠ 0) (h1 : 0 ≤ T1) (h2 : T1 ≤ T2) :
+    nN3 R cap l2 pa p2 T1 * Real.exp (-(l2 * (T2 - T1))) ≤ nN3 R cap l2 pa p2 T2 :=
+  nN3_monotone_mod_depletion R cap l2 pa p2 T1 T2 hRc h12 h13 h23 h1 h2
+
+/-! ## rest time -/
+
+/-- the activities listed for the rest times are `A·2^(-t/T½)` (with `LN2 = log 2`,
+    `ln2_is_log_two`) -/
+theorem rest_decay (thalf act : ℝ) (rests : List ℝ) :
+    restDecay (Real.log 2 / thalf) act rests = rests.map fun t => act * (2:ℝ) ^ (-t / thalf) :=
+  restDecay_eq thalf act rests
+
+/-- every value list `activity()` returns is `restDecay` of the row's activity at removal -/
+theorem activity_lists_are_rest_decay (c : Consts ℝ) (rows : List (Nat × Row ℝ)) (mass : ℝ) (env : Env ℝ)
+    (T : ℝ) (rests : List ℝ) (out : List (Nat × List ℝ)) (h : activity c rows mass env T rests = .ok out) :
+    ∀ kv ∈ out, ∃ r act, (kv.1, r) ∈ rows ∧ activityRow c r mass env T = .ok (some act) ∧
+      kv.2 = restDecay (c.ln2 / r.thalf) act rests :=
+  activity_values c rows mass env T rests out h
+
+/-! ## omission of fast and epithermal reactions -/
+
+theorem fast_omitted (c : Consts ℝ) (r : Row ℝ) (mass : ℝ) (env : Env ℝ) (T : ℝ)
+    (hf : r.fast = true) (h0 : env.fastRatio = 0) : activityRow c r mass env T = .ok none :=
+  activityRow_fast_omitted c r mass env T hf h0
+
+/-- nothing else is ever omitted -/
+theorem fast_omitted_iff (c : Consts ℝ) (r : Row ℝ) (mass : ℝ) (env : Env ℝ) (T : ℝ) :
+    activityRow c r mass env T = .ok none ↔ (r.fast = true ∧ env.fastRatio = 0) :=
+  activityRow_none_iff c r mass env T
+
+/-- the products listed by `activity()` are exactly the rows that are not omitted, in table order -/
+theorem result_rows_are_the_kept_rows (c : Consts ℝ) (rows : List (Nat × Row ℝ)) (mass : ℝ) (env : Env ℝ)
+    (T : ℝ) (rests : List ℝ) (out : List (Nat × List ℝ)) (h : activity c rows mass env T rests = .ok out) :
+    out.map Prod.fst = (rows.filter fun kr => !(kr.2.fast && env.fastRatio == 0)).map Prod.fst :=
+  activity_keys c rows mass env T rests out h
+
+/-- below a cadmium ratio of 1 the resonance integrals do not enter -/
+theorem epithermal_omitted (c : Consts ℝ) (r : Row ℝ) (mass : ℝ) (env : Env ℝ) (T : ℝ)
+    (x y : ℝ) (hcd : env.cdRatio < 1) :
+    activityRow c { r with resonance := x, resonanceParent := y } mass env T = activityRow c r mass env T :=
+  activityRow_epithermal_omitted c r mass env T x y hcd
+
+/-- the factor on the resonance integral: `0` below 1, `1/Cd` from 1 on -/
+theorem epithermal_factor (cd : ℝ) :
+    (cd < 1 → epithermal cd = 0) ∧ (1 ≤ cd → epithermal cd = 1 / cd) :=
+  ⟨epithermal_lt_one cd, epithermal_ge_one cd⟩
+
+/-! ## samples: sum over isotopes, natural abundance -/
+
+/-- the sample's activity at removal, row by row, is the sum over the `activity()` calls made for
+    its isotopes (`isoJobs`: isotope named by the formula → `mass·fraction`; isotope of a natural
+    element → `mass·fraction·abundance·0.01`, skipped when that is 0) -/
+theorem sample_is_sum_over_isotope_calls (c : Consts ℝ) (rowsOf : Nat → Nat → List (Nat × Row ℝ))
+    (mass : ℝ) (env : Env ℝ) (T : ℝ) (rests : List ℝ) (parts : List (PtModel.Activation.Part ℝ)) (tally : Tally ℝ)
+    (h : calcActivation c rowsOf mass env T rests parts = .ok tally) :
+    ∃ results, List.Forall₂
+        (fun job res => activity c (rowsOf job.1 job.2.1) job.2.2 env T (0 :: rests) = .ok res)
+        (isoJobs mass parts) results ∧
+      ∀ k, lookR tally.removal k = (results.map fun res => headSum res k).sum :=
+  calcActivation_removal c rowsOf mass env T rests parts tally h
+
+/-- the same for `Sample.activity`, the table for the requested rest times: column `j` of row `k` is
+    the sum of the corresponding entries of those calls -/
+theorem sample_table_is_sum_over_isotope_calls (c : Consts ℝ) (rowsOf : Nat → Nat → List (Nat × Row ℝ))
+    (mass : ℝ) (env : Env ℝ) (T : ℝ) (rests : List ℝ) (parts : List (PtModel.Activation.Part ℝ)) (tally : Tally ℝ)
+    (h : calcActivation c rowsOf mass env T rests parts = .ok tally) :
+    ∃ results, List.Forall₂
+        (fun job res => activity c (rowsOf job.1 job.2.1) job.2.2 env T (0 :: rests) = .ok res)
+        (isoJobs mass parts) results ∧
+      ∀ k j, j < rests.length →
+        (lookT tally.table k).getD j 0 = (results.map fun res => colSum res k j).sum :=
+  calcActivation_table c rowsOf mass env T rests parts tally h
+
+/-- a natural element contributes `Σ_A abundance_A/100 · (activity of isotope A at the element's
+    whole mass)` -/
+theorem natural_is_abundance_weighted_sum (c : Consts ℝ) (rowsOf : Nat → Nat → List (Nat × Row ℝ))
+    (mass frac : ℝ) (env : Env ℝ) (T : ℝ) (rests : List ℝ) (z : Nat) (isos : List (Nat × ℝ))
+    (hm : 0 < mass * frac) (hab : ∀ ia ∈ isos, 0 ≤ ia.2)
+    (pure : Nat → List (Nat × List ℝ))
+    (hpure : ∀ ia ∈ isos, activity c (rowsOf z ia.1) (mass * frac) env T (0 :: rests) = .ok (pure ia.1)) :
+    ∃ tally, calcActivation c rowsOf mass env T rests [naturalPart frac z isos] = .ok tally ∧
+      ∀ k, lookR tally.removal k = (isos.map fun ia => ia.2 * 0.01 * headSum (pure ia.1) k).sum :=
+  natural_is_weighted_sum c rowsOf mass frac env T rests z isos hm hab pure hpure
+
+example (c : Consts ℝ) (rowsOf : Nat → Nat → List (Nat × Row ℝ)) (mass : ℝ) (env : Env ℝ) (T : ℝ) :
+    calcActivation c rowsOf mass env T [0, 24] [] = .ok {} := rfl
+
+/-! ## the tabulated data and the constants (regenerated from the source on every run) -/
+
+/-- every row of activation.dat has a mass number and a positive half-life; `'b'` and `'2n'` rows a
+    positive parent half-life; `'b'` rows a parent half-life different from the daughter's -/
+theorem table_rows_well_formed : PtGen.ActivationDat.table.all rowOk = true := table_rows_ok
+
+/-- `LN2 = log(2)` -/
+theorem ln2_is_log_two : (PtGen.ActivationDat.consts : Consts ℝ).ln2 = Real.log 2 := consts_ln2
+
+/-- the `1e-24` of `root` (cm² per barn) -/
+theorem barn_literal : PtGen.ActivationDat.barn = ⟨1, -24⟩ := barn_eq
+
+/-- the `1.6278e19` of `root` is N_A / 3.7·10⁴ (atoms per mol over decays per second per µCi),
+    with `constants.avogadro_number`, to 2·10⁻⁴ -/
+theorem uCi_literal_is_avogadro_per_microcurie :
+    |(PtGen.ActivationDat.consts : Consts ℝ).uCi * 3.7e4 - PtGen.avogadro_number|
+      ≤ 2e-4 * PtGen.avogadro_number := consts_uCi_is_avogadro_per_microcurie
+
 end PtVerif.C14
